@@ -201,6 +201,33 @@ def canonicalise(tree: ast.AST) -> None:
                 new_if = ast.copy_location(ast.If(test=test, body=[b0] + list(st.orelse), orelse=hb), st)
                 ast.fix_missing_locations(new_if)
                 seq[i] = new_if
+    # try: I = X.index(Y) except ValueError: A else: B   ->   if Y in X: I = X.index(Y); B else: A
+    for node in ast.walk(tree):
+        for fld in ("body", "orelse", "finalbody"):
+            seq = getattr(node, fld, None)
+            if not (isinstance(seq, list) and seq and isinstance(seq[0], ast.stmt)):
+                continue
+            for i, st in enumerate(seq):
+                if not (isinstance(st, ast.Try) and len(st.body) == 1 and len(st.handlers) == 1 and not st.finalbody):
+                    continue
+                h_ = st.handlers[0]
+                if not (isinstance(h_.type, ast.Name) and h_.type.id == "ValueError") or h_.name:
+                    continue
+                b0 = st.body[0]
+                if not (isinstance(b0, ast.Assign) and len(b0.targets) == 1 and isinstance(b0.targets[0], ast.Name) and isinstance(b0.value, ast.Call) and isinstance(b0.value.func, ast.Attribute)
+                        and b0.value.func.attr == "index" and len(b0.value.args) == 1 and not b0.value.keywords and isinstance(b0.value.func.value, (ast.Name, ast.Attribute)) and isinstance(b0.value.args[0], (ast.Name, ast.Attribute, ast.Constant))):
+                    continue
+                test = ast.Compare(left=copy.deepcopy(b0.value.args[0]), ops=[ast.In()], comparators=[copy.deepcopy(b0.value.func.value)])
+                hb = [x for x in h_.body if not isinstance(x, ast.Pass)]
+                rest_ = []
+                if hb and isinstance(hb[-1], (ast.Continue, ast.Return, ast.Raise, ast.Break)):
+                    # the handler leaves: what follows the try runs only when the position was found
+                    rest_ = list(seq[i + 1:])
+                    del seq[i + 1:]
+                new_if = ast.copy_location(ast.If(test=test, body=[b0] + list(st.orelse) + rest_, orelse=hb), st)
+                ast.fix_missing_locations(new_if)
+                seq[i] = new_if
+                break
     # it = <iterable expression>; for x in it: ..   ->   for x in <iterable expression>: ..
     # (a local bound once, read once, as the iterable of the statement that follows)
     for fn_ in ast.walk(tree):
@@ -1144,6 +1171,8 @@ def _truth_tests_of_lengths(tree: ast.AST) -> None:
             if isinstance(e.operand, ast.UnaryOp) and isinstance(e.operand.op, ast.Not):
                 return e.operand.operand
             return e
+        if isinstance(e, ast.Call) and isinstance(e.func, ast.Name) and e.func.id == "bool" and len(e.args) == 1 and not e.keywords:
+            return conv(e.args[0])
         if isinstance(e, ast.Compare) and len(e.ops) == 1 and isinstance(e.left, ast.Call) and isinstance(e.left.func, ast.Name) and e.left.func.id == "len" \
                 and len(e.left.args) == 1 and not e.left.keywords and isinstance(e.comparators[0], ast.Constant) and e.comparators[0].value == 0 and not isinstance(e.comparators[0].value, bool):
             if isinstance(e.ops[0], ast.Gt):
@@ -1153,7 +1182,7 @@ def _truth_tests_of_lengths(tree: ast.AST) -> None:
         return e
 
     for node in ast.walk(tree):
-        if isinstance(node, (ast.If, ast.While, ast.IfExp)):
+        if isinstance(node, (ast.If, ast.While, ast.IfExp, ast.Assert)):
             node.test = conv(node.test)
         elif isinstance(node, ast.comprehension):
             node.ifs = [conv(c) for c in node.ifs]
